@@ -121,6 +121,11 @@ def strategy(tier):
             # leading convert/restore rounds on ONE changer object (re-use after reset()); "double" = a second restore at the end
             "rounds": st.sampled_from([0, 0, 0, 2, 2, 3]),
             "double": st.booleans(),
+            # manual zones (settings zoneDefinitions -> Core.buildManualZones) covering all / some / none of the assemblies
+            "zones": st.fixed_dictionaries({"mode": st.sampled_from(["none", "none", "all", "some", "some"]), "n": st.integers(1, 3),
+                                            "pick": st.lists(st.integers(0, 11), min_size=1, max_size=8)}),
+            # after the first effective edge addition: a SECOND changer adds edges again (positions already occupied), then maybe removes
+            "edgeShape": st.sampled_from(["", "", "twice", "twice-remove"]),
             "enabled": st.lists(st.sampled_from(sorted(set(OPS))), min_size=3, max_size=8, unique=True),
             "program": st.lists(_op(), min_size=3, max_size=12),
         }
@@ -203,6 +208,7 @@ class _Run:
         self.flags_cleared = False  # an edge addition that added nothing happened and no assembly was added/removed since
         self.late = []  # (assembly index, block index, name) of centre values first assigned while the core was full
         self.restored_changer = None  # the changer whose restore was the last symmetry change
+        self.edge_shape_done = False
         self.changer_uses = 0  # conversions done by the current changer object
         self.rounds_done = 0
         self.counts = {}
@@ -308,7 +314,32 @@ class _Run:
             nucs = sorted(c.getNumberDensities())
             nuc = nucs[ni % len(nucs)]
             c.setNumberDensity(nuc, c.getNumberDensity(nuc) * f)
+        self.build_zones()
+        self.zones0 = self.zone_state()
         self.take_third_snapshot()
+
+    def build_zones(self):
+        z = self.case.get("zones") or {"mode": "none"}
+        self.zone_mode = "none"
+        if z["mode"] == "none":
+            return
+        n, pick = z["n"], z["pick"]
+        members = {}
+        uncovered = 0
+        for i, a in enumerate(self.core):
+            p = pick[i % len(pick)]
+            if z["mode"] == "all" or (p // n) % 2 == 0:
+                members.setdefault("zone-%d" % (p % n), []).append(a.getLocation())
+            else:
+                uncovered += 1
+        if not members:
+            return
+        defs = ["%s: %s" % (name, ", ".join(locs)) for name, locs in sorted(members.items())]
+        self.core.buildManualZones(self.cs.modified(newSettings={"zoneDefinitions": defs}))
+        self.zone_mode = "all" if uncovered == 0 else "some"
+
+    def zone_state(self):
+        return {z.name: set(z.locs) for z in self.core.zones}
 
     # -- consistency of the lookup tables (after every step) -----------------------------------
     def check_tables(self, where):
@@ -407,6 +438,9 @@ class _Run:
             got = core.getAssemblyWithStringLocation(label)
             if not out.check(got is None, sig + "/removed-location-still-resolves", lambda: "label %s still resolves to %r" % (label, got)):
                 break
+        zs = self.zone_state()
+        out.check(all(self.zones0.get(k, set()) <= v for k, v in zs.items()) and set(zs) == set(self.zones0), sig + "/zone-lost-locations",
+                  lambda: "zones now %s, defined as %s" % (zs, self.zones0))
         out.check(self.sfp_len() == self.s3_sfp, sig + "/spent-fuel-pool-changed", lambda: "pool holds %r assemblies, %r before" % (self.sfp_len(), self.s3_sfp))
         m = None
         if not self.s3_dirty_mass:
@@ -481,15 +515,23 @@ class _Run:
         c = 1 if centre is not None else 0
         nsrc = len(sources)
 
+        zones_before = self.zone_state()
+        src_labels = {a.getLocation(): cell for cell, a in src_cells.items()}
         if self.changer is None or op["fresh"]:
             self.changer = gc.ThirdCoreHexToFullCoreChanger(self.cs)
             self.changer_uses = 0
         changer = self.changer
-        if op["via"] == "core":
-            changer = self.changer = core.growToFullCore(self.cs)
-            self.changer_uses = 0
-        else:
-            changer.convert(self.r)
+        try:
+            if op["via"] == "core":
+                changer = self.changer = core.growToFullCore(self.cs)
+                self.changer_uses = 0
+            else:
+                changer.convert(self.r)
+        except Exception as exc:  # noqa: BLE001  (only the armi call is inside the try)
+            out.fail("convert/raises-instead-of-converting", "convert of a third core (zones: %s) raised %s: %s; %d assemblies, symmetry %s"
+                     % (self.zone_mode, type(exc).__name__, exc, len(core), core.symmetry))
+            self.state = "BROKEN"
+            return
         self.changer_uses += 1
         self.restored_changer = None
         self.state = "FULL"
@@ -538,6 +580,20 @@ class _Run:
             for cell, a in have.items():
                 if want[cell] != (self.ij(src), 0) and want[cell][0] == self.ij(src):
                     out.check(not set(mats) & {id(comp.material) for b in a for comp in b}, "convert/copy-shares-material-with-source", "cell %s" % (cell,))
+        # ----- zones: "thisZone.addLoc(newAssem.getLocation())": a copy joins the zone of its source; nothing else changes
+        zones_after = self.zone_state()
+        for zname in sorted(zones_before):
+            exp = set(zones_before[zname])
+            for label in zones_before[zname]:
+                if label in src_labels:
+                    i, j = src_labels[label]
+                    for k in (1, 2):
+                        exp.add("%03d-%03d" % _ring_pos(hm.rotate60(i, j, 2 * k)))
+            got = zones_after.get(zname)
+            out.check(got == exp, "convert/zone-locations", lambda: "zone %s: extra %s missing %s" % (zname, sorted((got or set()) - exp), sorted(exp - (got or set()))))
+        out.check(set(zones_after) == set(zones_before), "convert/zone-set-changed", lambda: "%s -> %s" % (sorted(zones_before), sorted(zones_after)))
+        if zones_before:
+            self.count("convert:zones-" + self.zone_mode)
         # ----- times three
         known_shape = self.flags_cleared and c == 1
         sig_tot = SIG_FLAGS if known_shape else "convert/total-not-times-three/" + ("centre" if c else "no-centre")
@@ -706,6 +762,27 @@ class _Run:
             out.check(not (set(_serials(a)) & src_serials), "add-edge/copy-serial-number-reused", lambda: "%r" % a)
         self.removed_labels = {a.getLocation() for a in added}
         self.masses()  # what a flux solver does with the edge model: read volumes and masses (fills the volume caches)
+        shape = self.case.get("edgeShape", "")
+        if shape and not self.edge_shape_done:
+            # a second changer object finds the 120-degree positions occupied: "Edge assembly already exists in ... Not adding."
+            self.edge_shape_done = True
+            before = self.snap()
+            second = gc.EdgeAssemblyChanger()
+            try:
+                second.addEdgeAssemblies(core)
+            except Exception as exc:  # noqa: BLE001
+                out.fail("add-edge/raises-when-positions-occupied", "addEdgeAssemblies by a second changer with %d edge assemblies present raised %s: %s"
+                         % (len(added), type(exc).__name__, exc))
+                self.state = "BROKEN"
+                return
+            self.expect_unchanged(before, "add-edge-positions-occupied")
+            self.check_tables("after the second edge addition")
+            self.count("addEdge:second-changer")
+            if shape == "twice-remove":
+                second.removeEdgeAssemblies(core)
+                self.state = "THIRD"
+                self.count("removeEdge:by-second-changer")
+                self.check_back_to_third("remove-edge", scaled_centre=False)
 
     def op_remove_edge(self, op):
         from armi.reactor.converters import geometryConverters as gc
@@ -939,6 +1016,7 @@ def execute(case):
     out.label(*["op:" + k for k in sorted(did)])
     if (did.get("restore") or did.get("restore:reused-changer")) and (did.get("assign:full:centre") or did.get("assign:full")):
         out.label("assign-between-convert-and-restore")
+    out.label("zones:" + run.zone_mode)
     if run.nsites:
         out.label("single-site-children")
     if did.get("convert:from-edge") and (did.get("restore") or did.get("restore:reused-changer")):
@@ -952,7 +1030,8 @@ PARTS = [
               "lattices), initial values for a drawn subset of 24 block parameters (14 volume integrated; scalars, lists, arrays, 6-vectors on "
               "corners/edges, displacement) and composition edits, then a program of <= 12 steps over convert (changer or Core.growToFullCore) / "
               "restorePreviousGeometry (0-3 leading convert/restore rounds re-use ONE changer object, optional second restore; pin-lattice blocks "
-              "carry children on a single off-centre site or at free coordinates) / addEdgeAssemblies / removeEdgeAssemblies / parameter assignment / number-density edit with a swarm subset "
+              "carry children on a single off-centre site or at free coordinates; manual zones cover all / some / none of the assemblies; a "
+              "second changer may add edges over occupied positions) / addEdgeAssemblies / removeEdgeAssemblies / parameter assignment / number-density edit with a swarm subset "
               "of enabled kinds; non-trivial = centre assembly present, >= 1 assembly on the 0-degree symmetry line and at least one effective "
               "conversion or edge addition; oracle: rotation closure of the cells, copies equal to their source up to the documented rotation, "
               "identity-disjoint, unique names/serials, x3 on mass per nuclide / volume / parameter totals, observe() snapshot + identity of the "
